@@ -157,10 +157,14 @@ SIZES = [0, 1, 9998, 9999, 10000, 10001]
 LIST_OPS = ['push(L, 1)', 'L.push(2)', 'L | push(3)', 'insert(L, 0, 1)', 'L.insert(5, 1)', 'insert(L, -1, 1)', 'insert(L, 99999, 1)', 'L[0] = 5', 'L[-1] = 5', 'L[9999] = 5', 'L[1.5] = 5',
             'L[0] += 1', 'L[-1] -= 1', 'L[9999] *= 2', 'push(L, 1, 2, 3)', 'insert(L, 0, 1, 2)', 'push(L, L)', 'push(L, [1, 2])', 'pop(L)', 'del L[0]', 'remove(L, 5)', 'L[len(L)] = 1',
             'L[10000] = 1', 'L[0] = L', 'map([1, 2, 3], v => push(L, v))', 'map([1, 2, 3], v => insert(L, 0, v))', 'hm(v => push(L, v), 3)', '__setitem__(L, 0, 1)',
-            '__setitem_with_op__(L, 0, "+=", 1)', 'L[0] /= 2', 'push(L)', 'L += [1]', 'L += [1, 2, 3]', 'x = L + [1]', 'L[0:2]']
+            '__setitem_with_op__(L, 0, "+=", 1)', 'L[0] /= 2', 'push(L)',
+            # element-adding operations whose index is itself invalid: on a full container the refusal comes first
+            'insert(L, "x", 1)', 'insert(L, None, 1)', 'L["x"] = 1', 'L[None] = 1', 'L["x"] += 1', 'L[hnan] = 1', 'L[hinf] += 1', 'insert(L, hnan, 1)', 'insert(L, [], 1)', 'L[{}] = 1', 'L += [1]', 'L += [1, 2, 3]', 'x = L + [1]', 'L[0:2]']
 DICT_OPS = ['Dd["zz"] = 1', 'Dd["0"] = 1', 'Dd[0] = 1', 'Dd[5] = "x"', 'Dd[True] = 1', 'Dd[None] = 1', 'Dd[1.5] = 1', 'Dd["0"] += 1', 'Dd[0] += 1', 'Dd["zz"] += 1', 'Dd[7] -= 1',
             '__setitem__(Dd, "q", 1)', '__setitem__(Dd, 3, 1)', 'del Dd["0"]', 'del Dd[1]', 'remove(Dd, "2")', 'map([1, 2, 3], v => __setitem__(Dd, "n" + v, v))',
-            'map(["a", "b"], v => __setitem__(Dd, v, 1))', 'Dd["0"] = Dd', 'Dd[10000] = 1', 'Dd[9999] = 1', 'Dd[-1] = 1', 'hm(v => __setitem__(Dd, v, v), 3)', 'Dd["k"] = [1]']
+            'map(["a", "b"], v => __setitem__(Dd, v, 1))', 'Dd["0"] = Dd', 'Dd[10000] = 1', 'Dd[9999] = 1', 'Dd[-1] = 1', 'hm(v => __setitem__(Dd, v, v), 3)', 'Dd["k"] = [1]',
+            # lookups are not element-adding operations: a host mapping that inserts on a subscript miss (defaultdict) must not grow through them
+            'get(Dd, "missing", 7)', 'get(Dd, "zz")', 'map(["m1", "m2", "m3"], k => get(Dd, k))', '"zz" in Dd', 'index_of(keys(Dd), "zz")', 'x = Dd\nget(x, "q")\nlen(x)']
 PRODUCERS = ['big + big', 'big + [1]', '[1] + big', 'x = big\nx += big\nx', 'x = big\nx += [1, 2]\nlen(x)', 'c = [big]\nc[0] += big\nc', 'c = {"k": big}\nc["k"] += [1]\nc', 'big * 2', '[big, big]',
              'list(big)', 'list(big, big)', 'map(big, v => [v, v])', 'map(big, v => v) + map(big, v => v)', 'items(bigd)', 'keys(bigd)', 'values(bigd)', 'enumerate(big)', 'sorted(big)',
              'reversed(big)', 'shuffle(big)', 'filter(big, v => True)', 'sorted(bigd)', 'dict(bigd)', 'dict(items(bigd))', 'big[0:10001]', 'big[::-1]', 'big[::1] + big[0:1]',
@@ -180,7 +184,7 @@ PRODUCERS = ['big + big', 'big + [1]', '[1] + big', 'x = big\nx += big\nx', 'x =
 def names_for(src, size, intkeys):
     def hm(f, n):
         return [f(D(i)) for i in range(int(n))]
-    n = {'hm': hm}
+    n = {'hm': hm, 'hnan': float('nan'), 'hinf': float('inf')}
     if 'L' in src:
         n['L'] = [D(i) for i in range(size)]
     if 'Dd' in src:
